@@ -19,10 +19,12 @@
 //   MODEL <idx> plug <np>                      base model with np instances of the harness plugin
 //   SWEEP <scen> <mode> <idx> <rej> <nrand> <seed>   fault-free run, every single fault, nrand random sets
 //   RUN <scen> <mode> <idx> <rej> <k1,k2,...|->      one schedule
-// scen: CM copy model, LD load buffer, SV save to file, DT data life cycle, ST step, CP compile
+// scen: CM copy model, LD load buffer, SV save to file, DT data life cycle, ST step, CP compile,
+//       RC compile + data + in-place mj_recompile + the caller's cleanup, IP in-place remake of mjData
 // mode: E default handler (process exits), J longjmp handler, R returning handler (out of contract)
 #include "mjgen.h"
 #include <mujoco/mjxmacro.h>
+#include "engine/engine_io.h"   // mj_makeRawData, mj_initPlugin (what mjCModel::MakeData calls)
 #include <signal.h>
 #include <stdarg.h>
 #include <sys/mman.h>
@@ -96,6 +98,8 @@ static void hook_free(void* p) {
 // ---------------------------------------------------------------- log handler
 static char g_mode = 'E';
 static jmp_buf g_top;
+static jmp_buf g_inner;          // the caller of mj_recompile in the RC scenario catches the error itself
+static volatile int g_inner_armed = 0;
 static mjfLogHandler g_prev = NULL;
 static int errclass(const char* s) {
   if (strstr(s, "Could not allocate memory")) return 0;
@@ -110,7 +114,7 @@ static void log_handler(const mjLogMessage* msg) {
     ev("E%d ", c);
     if (c == 9) fprintf(stderr, "c21: error: %s\n", msg->subject);
     if (g_mode == 'E') { g_prev(msg); ev("HANDLER-RETURNED "); }   // default handler: exit(EXIT_FAILURE)
-    else if (g_mode == 'J') longjmp(g_top, 1);
+    else if (g_mode == 'J') longjmp(g_inner_armed ? g_inner : g_top, 1);
     return;                                                         // 'R'
   }
   if (msg->level == mjLOG_WARNING) ev("W ");
@@ -225,17 +229,30 @@ static void make_buffers(Base* b) {
   }
 }
 
+// the edit of the RC scenario: one more body with a hinge joint and a geom
+static void edit_spec(mjSpec* s) {
+  mjsBody* nb = mjs_addBody(mjs_findBody(s, "world"), NULL);
+  nb->pos[1] = 1; nb->pos[2] = 0.5;
+  mjsJoint* j = mjs_addJoint(nb, NULL); j->type = mjJNT_HINGE;
+  mjsGeom* g = mjs_addGeom(nb, NULL); g->type = mjGEOM_SPHERE; g->size[0] = 0.07;
+}
+
 static int build_base(int idx) {
   Base* b = &base[idx];
   mjSpec* s = base_spec(b);
   mjModel* m = mj_compile(s, NULL);
   if (!m) { printf("MODELFAIL %d %s\n", idx, mjs_getError(s)); mj_deleteSpec(s); return 0; }
+  // sizes of the edited model (what mj_recompile allocates in the RC scenario)
+  long long mbuf2 = 0, dbuf2 = 0;
+  edit_spec(s);
+  mjModel* m2 = mj_compile(s, NULL);
+  if (m2) { mjData* d2 = mj_makeData(m2); mbuf2 = m2->nbuffer; dbuf2 = d2->nbuffer; mj_deleteData(d2); mj_deleteModel(m2); }
   mj_deleteSpec(s);
   b->m = m; b->used = 1;
   mjData* d = mj_makeData(m);
-  printf("SIZES %d model=%zu mbuf=%lld data=%zu dbuf=%lld arena=%lld nplugin=%d npluginstate=%d save=%lld vfs=%zu plug=40 nq=%d nv=%d nbody=%d\n",
+  printf("SIZES %d model=%zu mbuf=%lld data=%zu dbuf=%lld arena=%lld nplugin=%d npluginstate=%d save=%lld vfs=%zu plug=40 mbuf2=%lld dbuf2=%lld nq=%d nv=%d nbody=%d\n",
          idx, sizeof(mjModel), (long long)m->nbuffer, sizeof(mjData), (long long)d->nbuffer, (long long)m->narena,
-         (int)m->nplugin, (int)m->npluginstate, (long long)mj_sizeModel(m), sizeof(mjVFS), (int)m->nq, (int)m->nv, (int)m->nbody);
+         (int)m->nplugin, (int)m->npluginstate, (long long)mj_sizeModel(m), sizeof(mjVFS), mbuf2, dbuf2, (int)m->nq, (int)m->nv, (int)m->nbody);
   mj_deleteData(d);
   make_buffers(b);
   return 1;
@@ -293,6 +310,67 @@ static void compile_scenario(Base* b) {
   mj_deleteSpec(s);
 }
 
+static void compile_note(mjSpec* s) {
+  const char* e = mjs_getError(s);
+  int mem = e && (strstr(e, "Could not allocate memory") || strstr(e, "could not allocate"));
+  ev("C%d ", mem ? 1 : (e && e[0] ? 2 : 0));
+  if (!mem) fprintf(stderr, "c21: compile error: %s\n", e ? e : "(null)");
+}
+
+// RC: compile, make data, step, edit the spec, recompile IN PLACE (mj_makeModel / mj_makeRawData on the
+// caller's structs), then what the caller has to do: nothing after a -1 return (the library deleted
+// m and d), mj_deleteData + mj_deleteModel after success or after an exit through the error channel
+static void recompile_scenario(Base* b) {
+  mjSpec* s = base_spec(b);
+  mju_user_malloc = hook_malloc; mju_user_free = hook_free;
+  mjModel* volatile m = mj_compile(s, NULL);
+  if (!m) compile_note(s);
+  retp(m);
+  if (!m) { mj_deleteSpec(s); return; }
+  mjData* volatile d = mj_makeData(m);
+  retp(d);
+  for (int i = 0; i < 3; i++) mj_step(m, d);
+  edit_spec(s);
+  volatile int ret = -2;
+  g_inner_armed = 1;
+  if (setjmp(g_inner) == 0) {
+    ret = mj_recompile(s, NULL, m, d);
+    g_inner_armed = 0;
+    if (ret != 0) compile_note(s);
+    ev(ret == 0 ? "R1 " : "R0 ");
+  } else {
+    g_inner_armed = 0;
+    ev("J ");
+  }
+  if (ret != -1) {
+    if (ret == 0) for (int i = 0; i < 2; i++) mj_step(m, d);
+    mj_deleteData(d);
+    mj_deleteModel(m);
+  }
+  mj_deleteSpec(s);
+}
+
+// IP: make data, then remake it IN PLACE exactly as mjCModel::MakeData does (mj_makeRawData on the
+// existing struct, mj_initPlugin, mj_resetData), the caller catching the error, then mj_deleteData
+static void inplace_scenario(Base* b) {
+  mjModel* M = b->m;
+  mjData* volatile d = mj_makeData(M);
+  retp(d);
+  g_inner_armed = 1;
+  if (setjmp(g_inner) == 0) {
+    mjData* dd = d;
+    mj_makeRawData(&dd, M);
+    mj_initPlugin(M, dd);
+    mj_resetData(M, dd);
+    g_inner_armed = 0;
+    ev("R1 ");
+  } else {
+    g_inner_armed = 0;
+    ev("J ");
+  }
+  mj_deleteData(d);
+}
+
 // run one schedule in a forked child; prints the RUN line
 static int run_one(const char* scen, char mode, int idx, int rej, const int* fails, int nfail) {
   *TRN = 0; TR[0] = 0;
@@ -309,6 +387,8 @@ static int run_one(const char* scen, char mode, int idx, int rej, const int* fai
     Base* b = &base[idx];
     if (setjmp(g_top) == 0) {
       if (!strcmp(scen, "CP")) compile_scenario(b);
+      else if (!strcmp(scen, "RC")) recompile_scenario(b);
+      else if (!strcmp(scen, "IP")) { mju_user_malloc = hook_malloc; mju_user_free = hook_free; inplace_scenario(b); }
       else { mju_user_malloc = hook_malloc; mju_user_free = hook_free; scenario(scen, b, rej); }
       ev("END ");
     } else {
